@@ -6,7 +6,7 @@ component's exact real polynomial (computed by the affine/polynomial domain) mus
 *identical* to the textbook polynomial, and the accumulated rounding bound must stay below
 1e-5.  invert() is decided algebraically: numerators = adjugate, common denominator =
 determinant, hence A*inv(A) = I over the reals; the 1e-4 floating-point clause for
-|det| >= 0.5 is not decided (first-order bound does not close, DESIGN.md section 5)."""
+|det| >= 0.5 is decided by a two-stage running-error analysis (invert_accuracy below)."""
 from __future__ import annotations
 from fractions import Fraction as Fr
 from engine.check import Check
@@ -48,6 +48,71 @@ def flat(v):
     return out
 
 def P(a): return Poly.atom(a.id)
+
+INV_BUDGET = Fr(1, 10 ** 4)
+
+def invert_accuracy(ck, key, ty, inv, divisors, mm, ma, na):
+    """|A*invert(A) - I| and |invert(A)*A - I| <= 1e-4 in floating point for entries in [-2,2] and |det A| >= 0.5.
+
+    A per-entry error propagation through adj/det loses the fact that the error of the computed determinant is common to
+    all nine entries (it would give ~2e-3).  Two stages keep it:
+      1. the divisor node d of invert (one node, used by all nine divisions) has the exact polynomial +-det(A) and an
+         a-priori running-error bound e_d; so its computed value d_c satisfies |d_c| >= 1/2 - e_d;
+      2. with q := 1/d_c (a real number, |q| <= 1/(1/2 - e_d)) every RN(x / d_c) is RN(x * q): the products
+         mul_mat(A, invert(A)) and mul_mat(invert(A), A) become polynomial expressions in the entries and q, whose exact
+         polynomial must be  q * d(A) * delta_ij  (identity of polynomials) and whose running-error bound is E_ij.
+    Then |P_ij - delta_ij| <= E_ij + delta_ij * |d(A)/d_c - 1| <= E_ij + delta_ij * e_d / (1/2 - e_d)."""
+    if len({d.id for d in divisors}) != 1:
+        ck.ob(key, 'UNDECIDED', f"invert divides by {len(divisors)} different nodes: the common-denominator argument does not apply"); return
+    d = divisors[0]
+    rng2 = lambda n: (Fr(-2), Fr(2))
+    an1 = Analyzer(atom_range=rng2)
+    dv = an1.ev(d)
+    A = [[P(ma[i][j]) for j in range(3)] for i in range(3)]
+    det = (A[0][0] * (A[1][1] * A[2][2] - A[1][2] * A[2][1]) - A[0][1] * (A[1][0] * A[2][2] - A[1][2] * A[2][0])
+           + A[0][2] * (A[1][0] * A[2][1] - A[1][1] * A[2][0]))
+    if dv.p != det and dv.p != det.scale(-1):
+        ck.ob(key, 'UNDECIDED', f"the divisor of invert is not +-det(A) as a polynomial ({dv.p})"); return
+    e_d = dv.err
+    dmin = Fr(1, 2) - e_d
+    if dmin <= 0:
+        ck.ob(key, 'UNDECIDED', f"rounding bound of the determinant {float(e_d):.3g} reaches 1/2"); return
+    Q = 1 / dmin
+    q = X.sym(ty, 'recip_of_computed_det')
+    mapping = {}
+    for c in inv:
+        for nd in X.walk(c):
+            if nd.op == 'fdiv' and nd.args[1] is d:
+                mapping[nd.id] = X.binop('mul', nd.args[0], q)
+    inv_q = [X.substitute(c, mapping) for c in inv]
+    if any(nd.op == 'fdiv' for c in inv_q for nd in X.walk(c)):
+        ck.ob(key, 'UNDECIDED', 'a division remains after replacing x / det by x * (1/det)'); return
+    rng = lambda n: (-Q, Q) if n is q else (Fr(-2), Fr(2))
+    sides = {
+        'A*inv': {na[i][j].id: inv_q[i * 3 + j] for i in range(3) for j in range(3)},
+        'inv*A': dict([(ma[i][j].id, inv_q[i * 3 + j]) for i in range(3) for j in range(3)] + [(na[i][j].id, ma[i][j]) for i in range(3) for j in range(3)]),
+    }
+    tail = e_d / dmin
+    for side, sub in sides.items():
+        an = Analyzer(atom_range=rng)
+        worst = Fr(0); where = None
+        bad = None
+        for i in range(3):
+            for j in range(3):
+                r = an.ev(X.substitute(mm[i * 3 + j], sub))
+                want = (Poly.atom(q.id) * dv.p) if i == j else Poly()
+                if r.p != want:
+                    bad = f"entry ({i},{j}) of {side} has the exact polynomial {str(r.p)[:120]} instead of {'q*det' if i == j else '0'}"
+                    break
+                tot = r.err + (tail if i == j else 0)
+                if tot > worst: worst, where = tot, (i, j)
+            if bad: break
+        if bad:
+            ck.ob(f"{key}/{side}", 'REFUTED', bad)
+        else:
+            ck.ob(f"{key}/{side}", 'PROVED' if worst <= INV_BUDGET else 'UNDECIDED',
+                  f"|{side} - I| <= {float(worst):.3g} {'<=' if worst <= INV_BUDGET else '>'} 1e-4 for entries in [-2,2], |det| >= 1/2 (worst entry {where}; determinant rounding {float(e_d):.3g}, common-denominator term {float(tail):.3g})")
+        ck.count('invert_products')
 
 def run(tier):
     ck = Check('C19', tier, 'proof', 'abstract interpretation of MIR with symbolic entries; exact polynomial identity with the textbook definition + a-priori rounding bound; algebraic identity adj(A)/det(A) for invert')
@@ -161,8 +226,11 @@ def run(tier):
                 else:
                     ck.ob(key, 'REFUTED', f"invert(A) is undefined (division by zero) for matrices with det(A) != 0: an entry has the denominator {bad_den}")
                 ck.count('methods')
+                if ident_ok and dens_ok:
+                    mm = flat(call(ctx, K(f'Matrix::<{T}>::mul_mat'), [('ref', M), N]))
+                    invert_accuracy(ck, f"C19/invert_accuracy/{T}/{b}", ty, comps, list(divisors.values()), mm, ma, na)
             except Unsupported as ex:
                 ck.ob(f"C19/analysis/{T}/{b}", 'UNDECIDED', f"analysis lost: {ex}")
-    ck.note('not_decided', ['A*invert(A) within 1e-4 for |det| >= 0.5 under rounding (first-order bound does not close)'])
     ck.floor('methods', 36)
+    ck.floor('invert_products', 8)
     return ck.finish()
